@@ -32,13 +32,14 @@ CONSTANTS MaxAtom,              \* atom numbers 1..MaxAtom
           InitSlotsOnCopy,      \* copy / substructure / union results have their own (empty) pending set and no snapshot
           RestoreCacheOnAbort,  \* a failed transaction takes the snapshot's memoised views back (ring / component views read
                                 \*   inside the block describe the abandoned structure)
-          FullFlushOnSpecialDelete  \* deleting a coordinate (order 8) bond drops every view, components included
+          FullFlushOnSpecialDelete, \* deleting a coordinate (order 8) bond drops every view, components included
+          PackMemoised          \* the binary form is memoised like the other views (it is not: coordinates change without a flush)
 
 Nums == 1..MaxAtom
 Elems == {6, 7, 8}
 Orders == {1, 2, 8}
 Charges == {-1, 0, 1}
-Views == {"rings", "comps", "full"}
+Views == {"rings", "comps", "full", "pack"}
 Pairs == { p \in SUBSET Nums : Cardinality(p) = 2 }
 
 VARIABLE objs
@@ -60,6 +61,7 @@ NotSpecial(o) == { p \in DOMAIN o.bo : o.bo[p] # 8 }
 Foot(v, o) == CASE v = "rings" -> <<Atoms(o), NotSpecial(o)>>                   \* sssr, ring marks, ring counts
                 [] v = "comps" -> <<Atoms(o), DOMAIN o.bo>>                      \* connected components
                 [] v = "full"  -> <<o.ord, o.el, o.chg, o.rad, o.nbr, o.bo>>     \* canonical string, atom order, formula, ...
+                [] v = "pack"  -> <<o.ord, o.el, o.chg, o.rad, o.x, o.nbr, o.bo>>  \* binary form: everything, coordinates included
 Flushed(o, keepR, keepC) ==
   Restrict(o.cache, { w \in DOMAIN o.cache : (w = "rings" /\ keepR) \/ (w = "comps" /\ keepC) })
 
@@ -131,7 +133,7 @@ CanRemap(o, f) == /\ Ready(o) /\ DOMAIN f \subseteq Nums
 (* ---- reading a derived view: memoised, returns the cached footprint's value.  Ring and component views may also be read inside
         a transaction (every structural mutator drops them at once, also there); the views that depend on hydrogen counts and
         labels may not (those are recomputed at commit only) ---- *)
-DoRead(o, v) == IF v \in DOMAIN o.cache THEN o
+DoRead(o, v) == IF v \in DOMAIN o.cache \/ (v = "pack" /\ ~PackMemoised) THEN o
                 ELSE [o EXCEPT !.cache = [w \in DOMAIN o.cache \cup {v} |-> IF w = v THEN Foot(v, o) ELSE o.cache[w]]]
 ReadValue(o, v) == IF v \in DOMAIN o.cache THEN o.cache[v] ELSE Foot(v, o)
 CanRead(o, v) == Ready(o) /\ (~InTx(o) \/ v \in {"rings", "comps"})
